@@ -269,12 +269,21 @@ def run(ctx, proof):
     parts = special_cases(ctx.rng, n // 2) + random_parts(ctx.rng, n)
     for i in range(0, len(parts), 600):
         analyse(ctx, parts[i:i + 600])
+    # by execution in bash (the last clause of the property: every candidate the `|` grammar offers is also offered by
+    # the `||` grammar whenever no candidate of an earlier branch extends the typed prefix): `||` with a within-word
+    # expression in a branch that is not the last one, prefixes of the later branches' candidates; the candidates bash
+    # offers must be those Spec.Complete prescribes
+    from . import c01
+    c01.check_grammars(ctx, 400 if ctx.thorough() else 24, own="C09", gen="fallback_gen")
     ctx.extra["programs"] = ctx.evaluations
 
 
 def replay(ctx, proof, path):
     with open(path) as f:
         rp = json.load(f)
+    if rp.get("kind") == "fallback-candidates-differ-in-bash":
+        from . import c01
+        return c01.replay(ctx, proof, path)
     recs = core.run_vh([("r", rp["shell"], rp["grammar"])], flags="dfa")
     rec = recs.get("r", {})
     if "raw" not in rec:
